@@ -1437,8 +1437,9 @@ def check_C08(o):
                     c, s["now"], s["runtime"]))
             if int(c[3]) != len(placed):
                 bad("sched_row.num_placed_wrong", "row %s: %d placed" % (c, len(placed)))
-            if int(c[4]) not in (len(unplaced), len(unplaced) + len(cancel)) or (
-                    unplaced and int(c[4]) == 0):
+            # "left unplaced" = answered with a PLACE_TASK decision that is not placed (each gets a TASK_SKIP row); a task
+            # answered with a cancellation was not left unplaced, it was cancelled (seed C08-8)
+            if int(c[4]) != len(unplaced):
                 bad("sched_row.num_unplaced_always_zero" if int(c[4]) == 0
                     else "sched_row.num_unplaced_wrong",
                     "row %s: the scheduler returned %d placed, %d unplaced (%s), %d cancelled "
